@@ -48,6 +48,7 @@ func Run(o *drv.Out) {
 	execdrv.Guard(o, func() { corpusNonCanonical(o) })
 	execdrv.Guard(o, func() { corpusCheckpointHeight(o) })
 	execdrv.Guard(o, func() { corpusLastCertVersion(o) })
+	corpusParamCache(o)
 	nCases, nHeights := 5, 5
 	if o.Tier == "thorough" || o.Search {
 		nCases, nHeights = 14, 8
@@ -78,7 +79,7 @@ func proposeAndCommit(c *execdrv.Chain, A *node.Node, txs []node.MixTx) *height 
 	if !c.Validate(A, p) {
 		c.Release()
 		sig := "C11:honest-proposal-rejected" + rejectionClass(A, p, remainder)
-		o.Fail(sig, fmt.Sprintf("height %d: the proposer rejects its own proposal (%d txs, %d valid transactions left in the mempool)", ht.h, p.NTx, remainder),
+		o.Fail(sig, fmt.Sprintf("height %d: the proposer rejects its own proposal (%d txs, %d valid transactions left in the mempool)%s", ht.h, p.NTx, remainder, scenarioNote),
 			map[string]any{"case": o.CurCase(), "height": ht.h, "block": hex.EncodeToString(p.Block), "remainder": remainder})
 		return nil
 	}
@@ -112,6 +113,9 @@ func blockSizes(nd *node.Node, p *execdrv.Proposal) string {
 
 // rejectionClass names the mechanism when it is recognisable from the block itself.
 func rejectionClass(nd *node.Node, p *execdrv.Proposal, remainder int) string {
+	if scenarioClass != "" {
+		return scenarioClass
+	}
 	if uint64(len(p.Block)) > nd.MaxBlockSize()+lib.MaxBlockHeaderSize {
 		// the raw transaction bytes fit the budget (the proposer never exceeds it) but the serialized block,
 		// with its per-transaction framing, is larger than the blockSize parameter
@@ -136,7 +140,7 @@ func replicate(c *execdrv.Chain, B *node.Node, ht *height, remainder bool) bool 
 			rem0 = 1
 		}
 		sig := "C11:honest-proposal-rejected" + rejectionClass(B, ht.p, rem0)
-		o.Fail(sig, fmt.Sprintf("height %d: node B holds the same prefix and rejects the honest proposal", ht.h),
+		o.Fail(sig, fmt.Sprintf("height %d: node B holds the same prefix and rejects the honest proposal%s", ht.h, scenarioNote),
 			map[string]any{"case": o.CurCase(), "height": ht.h, "block": hex.EncodeToString(ht.p.Block)})
 		return false
 	}
@@ -446,6 +450,81 @@ func corpusCheckpointHeight(o *drv.Out) {
 	}
 	o.Nontrivial(o.CurCase())
 	o.Sample(fmt.Sprintf("checkpoint-height: heights 1..%d proposed, validated, committed and replayed on a fresh node; the checkpoint of height 100 is the block's final hash", last))
+}
+
+// scenarioClass: set by a corpus scenario whose block is built to exercise one named mechanism.
+var scenarioClass string
+
+// scenarioNote: what the scenario put into the proposer's mempool, appended to rejection texts.
+var scenarioNote string
+
+// corpusParamCache: family "failed-param-change-then-dependent-tx" (execdrv/govern.go) as a
+// portability scenario. The honest proposer A builds the block of height 2 from a mempool holding an
+// approved changeParameter transaction that edits the cached parameter object and then fails in the
+// handler (or is valid and sits in the dropped oversize remainder), followed by a dependent
+// transaction (unstake, pause) or the EndBlock reward of a non-compounding validator. A itself and the
+// replica B must validate and commit the proposal, one more block follows on the same state, and the
+// fresh node C must replay A's archive to the same state.
+func corpusParamCache(o *drv.Out) {
+	rounds := 1
+	if o.Tier == "thorough" || o.Search {
+		rounds = 3
+	}
+	for r := 0; r < rounds; r++ {
+		for vi, v := range execdrv.ParamVariants {
+			if r == 0 && v.Space == "fee" {
+				continue // thorough tier: nothing reads the fee space after the transactions
+			}
+			execdrv.Guard(o, func() { paramCacheCase(o, v, 2+(vi+r)%3, int64(100*r+vi)) })
+		}
+	}
+}
+
+func paramCacheCase(o *drv.Out, v execdrv.ParamVariant, val int, seed int64) {
+	o.Case(fmt.Sprintf("failed-param-change-then-dependent-tx:%s:val%d:%d", v.Name, val, seed))
+	scenarioClass = ":failed-param-change"
+	scenarioNote = fmt.Sprintf("; the mempool of height 2 held %s, followed by %s on validator %d", v.Describe(), v.Dependent, val)
+	defer func() { scenarioClass, scenarioNote = "", "" }()
+	rng := rand.New(rand.NewSource(70 + seed))
+	net := execdrv.ParamNetwork(80+seed, v.Remainder)
+	defer net.Close()
+	c := execdrv.NewChain(o, net, rng, []int{16, 3})
+	A, B, C := c.NewNode("A", 0), c.NewNode("B", 1), c.NewNode("C", -1)
+	var hs []*height
+	for hi := 0; hi < 3; hi++ {
+		h := A.Height()
+		var mp []node.MixTx
+		if hi != 1 {
+			mp = []node.MixTx{{Kind: "send", Bytes: net.SendTx(net.AcctKeys[4*hi], net.FreshAddr(7+hi), 1000, 10000, h, "")}}
+		} else {
+			txs, _ := c.ParamMempool(v, h, val, 1000)
+			for _, tx := range txs {
+				mp = append(mp, node.MixTx{Kind: "param-family", Bytes: tx})
+			}
+		}
+		ht := proposeAndCommit(c, A, mp)
+		if ht == nil {
+			return
+		}
+		if hi == 1 {
+			o.Count(fmt.Sprintf("param-block:included=%d/left-in-mempool=%d", ht.p.NTx, A.MempoolCount()))
+		}
+		if !replicate(c, B, ht, v.Remainder) {
+			return
+		}
+		hs = append(hs, ht)
+	}
+	for _, ht := range hs {
+		if !serveAndSync(c, A, C, ht) {
+			return
+		}
+	}
+	if !execdrv.SameDump(A.StateDump(), C.StateDump()) {
+		o.Fail("C11:replay-diverges:failed-param-change", fmt.Sprintf("full state scans of A and the node that replayed its archive differ; height 2 was built from a mempool holding %s", v.Describe()), map[string]any{"case": o.CurCase()})
+		return
+	}
+	o.Count("param-variant:" + v.Name)
+	o.Nontrivial(o.CurCase())
 }
 
 // corpusLastCertVersion: proposer A, replica B and the archives hold DIFFERENT valid versions (+2/3
